@@ -211,6 +211,17 @@ theorem reach_addAll {c : TCfg Wt} (hc : c.Faithful) {d : Int} (hd : D d) (w2w :
 
 /-! ### documents -/
 
+theorem reach_reindexLoops {c : TCfg Wt} (hc : c.Faithful) {y : TTx W Wt} (h : Reach D x y) {d : Int} (hd : D d)
+    (old new : AMap Nat Wt) : Reach D x (TTx.reindexLoops c y d old new).1 := by
+  unfold TTx.reindexLoops
+  simp only
+  have h1 := reach_delAll hd
+    ((TTx.sortedKeys (AMap.keys old)).filter
+      (· ∉ (TTx.sortedKeys (AMap.keys old)).filter (· ∈ TTx.sortedKeys (AMap.keys new)))) h
+  split
+  · exact h1
+  · exact reach_addAll hc hd _ _ (reach_addAll hc hd _ _ h1)
+
 theorem reach_baseReindex {c : TCfg Wt} (hc : c.Faithful) {y : TTx W Wt} (h : Reach D x y) {d : Int} (hd : D d)
     (words : List W) : Reach D x (TTx.baseReindex c y d words).1 := by
   unfold TTx.baseReindex
@@ -219,14 +230,11 @@ theorem reach_baseReindex {c : TCfg Wt} (hc : c.Faithful) {y : TTx W Wt} (h : Re
   | none => exact h.rd _
   | some oldWids =>
     simp only
-    have h1 := reach_delAll hd
-      ((TTx.sortedKeys (AMap.keys (c.freq oldWids).1)).filter
-        (· ∉ (TTx.sortedKeys (AMap.keys (c.freq oldWids).1)).filter
-          (· ∈ TTx.sortedKeys (AMap.keys (c.freq (TTx.sourceToWordIds (y.rd (.docwords d)) words).2).1))))
-      (reach_sourceToWordIds words (h.rd (.docwords d)))
+    have h1 := reach_reindexLoops hc (reach_sourceToWordIds words (h.rd (.docwords d))) hd
+      (c.freq oldWids).1 (c.freq (TTx.sourceToWordIds (y.rd (.docwords d)) words).2).1
     split
     · exact h1
-    · exact Reach.dwSet (Reach.dwtSet (reach_addAll hc hd _ _ (reach_addAll hc hd _ _ h1)) hd _) hd _
+    · exact Reach.dwSet (Reach.dwtSet h1 hd _) hd _
 
 theorem reach_baseIndex {c : TCfg Wt} (hc : c.Faithful) {y : TTx W Wt} (h : Reach D x y) {d : Int} (hd : D d)
     (words : List W) : Reach D x (TTx.baseIndex c y d words).1 := by
